@@ -17,6 +17,7 @@
 -/
 import StVerif.Lemmas.PoolStep
 import StVerif.Props.C05
+import StVerif.Props.C16
 
 namespace StVerif.Props.C19
 open StVerif StVerif.Pool
@@ -184,5 +185,48 @@ theorem asFound_assignCopy_useAfterFree :
 /-- without a fault the members as found and the repaired members give the same observations (the repair changes
     nothing but the state left behind by a throwing `new`) — on this example -/
 example : obsOf (observe 1 (after (allocateAsFound 1 9 start))) = obsOf (observe 1 (after (allocate 1 9 start))) := by decide +kernel
+
+/-! ### `ST::string_stream` (family `stream`): restatements / corollaries of the C16 results
+
+  The stream machine (Model/Stream.lean) consults the same kind of fault schedule (`failAt`) in `new char[big_size]` of
+  `expand_buffer` and in the conversion buffer of the wide `operator<<` overloads; `new` precedes `delete[]`, and the
+  signed-number overloads reserve room for sign and digits before their first append (repaired; the overloads as found
+  are `Stream.appendNumAsFound`, witness `Props.C16.pinned_signed_number_partial_append`). -/
+
+/-- under any fault schedule every admissible stream operation returns, or throws `unicode_error` / `bad_alloc` with
+    every stream showing the bytes it showed before (the target holds its previous value); it never faults or hangs, and
+    the stream invariant (exclusive ownership, no dangling pointer, nothing leaked) holds afterwards -/
+theorem stream_step_fault_safe {p : Stream.Pool} (hi : Stream.Inv p) (op : Stream.Op) (hwf : op.wf)
+    (hok : Spec.ByteLog.ok (Stream.abs p) op.toSpec = true) :
+    ∃ p', Stream.Inv p' ∧
+      ((op.run .repaired p = .ok () p' ∧ Stream.abs p' = Spec.ByteLog.step (Stream.abs p) op.toSpec) ∨
+       (op.run .repaired p = .throw .unicodeError p' ∧ Stream.abs p' = Stream.abs p) ∨
+       (op.run .repaired p = .throw .badAlloc p' ∧ p.failAt ≠ none ∧ Stream.abs p' = Stream.abs p)) :=
+  Props.C16.step_fault_safe hi op hwf hok
+
+/-- an `append` whose growth fails leaves every stream object, every heap block and the invariant exactly as they were -/
+theorem stream_append_fault_safe {p : Stream.Pool} (hi : Stream.Inv p) {o : Nat} {s : Stream.Obj} (ho : p.objs o = some s)
+    (bytes : List Nat) (p' : Stream.Pool) (h : Stream.append o bytes p = .throw .badAlloc p') :
+    p'.objs = p.objs ∧ p'.heap = p.heap ∧ p'.next = p.next ∧ Stream.Inv p' ∧ Stream.abs p' = Stream.abs p :=
+  Props.C16.append_fault_safe hi ho bytes p' h
+
+/-- the same for `append_char` -/
+theorem stream_append_char_fault_safe {p : Stream.Pool} (hi : Stream.Inv p) {o : Nat} {s : Stream.Obj} (ho : p.objs o = some s)
+    (ch n : Nat) (p' : Stream.Pool) (h : Stream.appendChar o ch n p = .throw .badAlloc p') :
+    p'.objs = p.objs ∧ p'.heap = p.heap ∧ p'.next = p.next ∧ Stream.Inv p' ∧ Stream.abs p' = Stream.abs p :=
+  Props.C16.append_char_fault_safe hi ho ch n p' h
+
+/-- after a stream operation ended in `bad_alloc`, every stream is still destructible: destroying all of them succeeds
+    (no bad / double free) and leaves an empty heap -/
+theorem stream_fault_then_destructible {p p' : Stream.Pool} (hi : Stream.Inv p) (op : Stream.Op) (hwf : op.wf)
+    (hok : Spec.ByteLog.ok (Stream.abs p) op.toSpec = true) (h : op.run .repaired p = .throw .badAlloc p')
+    (ids : List Nat) (hall : ∀ o, p'.objs o ≠ none → o ∈ ids) :
+    Stream.Inv p' ∧ ∃ p'', Stream.destroyAll ids p' = .ok () p'' ∧ (∀ o, p''.objs o = none) ∧ ∀ k, p''.heap k = none := by
+  have hi' : Stream.Inv p' := by
+    rcases Stream.step_sound hi op hwf hok with ⟨q, h1, _⟩ | ⟨q, h1, _⟩ | ⟨q, h1, h2, _⟩
+    · rw [h] at h1; cases h1
+    · rw [h] at h1; cases h1
+    · rw [h] at h1; cases h1; exact h2
+  exact ⟨hi', Stream.destroyAll_empty hi' ids hall⟩
 
 end StVerif.Props.C19
